@@ -404,35 +404,66 @@ func builtinModels() map[string]modelFn {
 	// ----- fmt / logging: opaque -----
 	fmtStr := func(e *Engine, st *State, c *callCtx) { e.finish(st, c, e.constString("<fmt>")) }
 	m["fmt.Sprintf"] = func(e *Engine, st *State, c *callCtx) {
-		// concrete format + concrete simple arguments: real formatting; otherwise opaque text
-		format, ok := e.concreteString(st, c.args[0].(StrVal))
-		if ok {
-			var goArgs []interface{}
-			for _, a := range e.sliceSlots(st, c.args[1].(SliceVal)) {
-				gv, ok2 := e.goValue(st, a)
-				if !ok2 {
-					ok = false
-					break
-				}
-				goArgs = append(goArgs, gv)
-			}
-			if ok {
-				e.finish(st, c, e.newString(st, e.byteVals([]byte(fmt.Sprintf(format, goArgs...)))))
-				return
-			}
+		// concrete format; arguments concrete, or strings / byte slices with symbolic content
+		// under plain %s / %v: real formatting; otherwise opaque text
+		if cells, ok := e.formatCells(st, c.args[0].(StrVal), c.args[1].(SliceVal)); ok {
+			e.finish(st, c, e.newString(st, cells))
+			return
 		}
 		e.finish(st, c, e.constString("<fmt>"))
 	}
 	m["fmt.Sprint"] = fmtStr
 	m["fmt.Sprintln"] = fmtStr
 	m["fmt.Errorf"] = func(e *Engine, st *State, c *callCtx) { e.finish(st, c, e.makeError(st, "<fmt.Errorf>")) }
-	m["fmt.Fprintf"] = func(e *Engine, st *State, c *callCtx) {
+	// ----- mime/multipart, net/http helpers -----
+	// the random boundary (crypto/rand) is a fixed 60-character text; content sniffing (512-byte
+	// signature tables of net/http) answers "application/octet-stream" for every input
+	m["mime/multipart.randomBoundary"] = func(e *Engine, st *State, c *callCtx) {
+		e.finish(st, c, e.constString("zzrandomboundaryzzrandomboundaryzzrandomboundaryzzrandombound"))
+	}
+	m["net/http.DetectContentType"] = func(e *Engine, st *State, c *callCtx) {
+		e.finish(st, c, e.constString("application/octet-stream"))
+	}
+	noPrint := func(e *Engine, st *State, c *callCtx) {
 		e.finish(st, c, TupleVal{e.intVal(0), IfaceVal{}})
 	}
-	m["fmt.Fprint"] = m["fmt.Fprintf"]
-	m["fmt.Fprintln"] = m["fmt.Fprintf"]
-	m["fmt.Printf"] = m["fmt.Fprintf"]
-	m["fmt.Println"] = m["fmt.Fprintf"]
+	m["fmt.Fprintf"] = func(e *Engine, st *State, c *callCtx) {
+		// formatted text is really written to the io.Writer (its Write method runs from SSA) when
+		// the text can be formatted; a logger-style sink that cannot be formatted stays a no-op
+		w, isI := c.args[0].(IfaceVal)
+		if !isI || w.typ == nil {
+			noPrint(e, st, c)
+			return
+		}
+		cells, ok := e.formatCells(st, c.args[1].(StrVal), c.args[2].(SliceVal))
+		if !ok {
+			e.unsupported(st, "fmt.Fprintf with arguments the formatter model cannot print")
+			return
+		}
+		it, ok := c.fn.Params[0].Type().Underlying().(*types.Interface)
+		if !ok || it.NumMethods() != 1 {
+			noPrint(e, st, c)
+			return
+		}
+		wfn := e.lookupMethod(w.typ, it.Method(0))
+		if wfn == nil {
+			panic(engineErr{"fmt.Fprintf: Write method not found on " + w.typ.String()})
+		}
+		var buf SliceVal
+		if len(cells) > 0 {
+			cp := make([]Value, len(cells))
+			copy(cp, cells)
+			id := e.allocMem(st, cp, "fmt")
+			buf = SliceVal{obj: id, off: 0, len: len(cells), cap: len(cells), esz: 1}
+		} else {
+			buf = SliceVal{esz: 1}
+		}
+		e.callFunction(st, wfn, []Value{w.v, buf}, nil, c.ret)
+	}
+	m["fmt.Fprint"] = noPrint
+	m["fmt.Fprintln"] = noPrint
+	m["fmt.Printf"] = noPrint
+	m["fmt.Println"] = noPrint
 	m["runtime/debug.Stack"] = func(e *Engine, st *State, c *callCtx) { e.finish(st, c, SliceVal{esz: 1}) }
 	m["errors.Is"] = func(e *Engine, st *State, c *callCtx) {
 		err, tgt := c.args[0].(IfaceVal), c.args[1].(IfaceVal)
@@ -690,4 +721,89 @@ func (e *Engine) findModel(name string) (modelFn, bool) {
 		}
 	}
 	return nil, false
+}
+
+// formatCells formats like fmt.Sprintf and returns the byte cells of the result. Concrete
+// arguments go through the real fmt.Sprintf; a string or byte-slice argument with symbolic bytes
+// is supported under a plain %s or %v verb (its cells are spliced into the output).
+func (e *Engine) formatCells(st *State, fs StrVal, argv SliceVal) ([]Value, bool) {
+	format, ok := e.concreteString(st, fs)
+	if !ok {
+		return nil, false
+	}
+	args := e.sliceSlots(st, argv)
+	allConcrete := true
+	goArgs := make([]interface{}, len(args))
+	for i, a := range args {
+		gv, ok2 := e.goValue(st, a)
+		if !ok2 {
+			allConcrete = false
+			break
+		}
+		goArgs[i] = gv
+	}
+	if allConcrete {
+		return e.byteVals([]byte(fmt.Sprintf(format, goArgs...))), true
+	}
+	// mixed: walk the format; only plain verbs
+	var out []Value
+	ai := 0
+	for i := 0; i < len(format); i++ {
+		ch := format[i]
+		if ch != '%' {
+			out = append(out, e.ctx.BV(8, uint64(ch)))
+			continue
+		}
+		if i+1 >= len(format) {
+			return nil, false
+		}
+		i++
+		verb := format[i]
+		if verb == '%' {
+			out = append(out, e.ctx.BV(8, '%'))
+			continue
+		}
+		if ai >= len(args) {
+			return nil, false
+		}
+		a := args[ai]
+		ai++
+		if gv, ok2 := e.goValue(st, a); ok2 {
+			switch verb {
+			case 's', 'v', 'd', 'q', 'x':
+				out = append(out, e.byteVals([]byte(fmt.Sprintf("%"+string(verb), gv)))...)
+				continue
+			}
+			return nil, false
+		}
+		if verb != 's' && verb != 'v' {
+			return nil, false
+		}
+		iv, isI := a.(IfaceVal)
+		if !isI || iv.typ == nil {
+			return nil, false
+		}
+		switch x := iv.v.(type) {
+		case StrVal:
+			// plain string only: a named type could carry a String/Error method
+			if _, isBasic := iv.typ.(*types.Basic); !isBasic {
+				return nil, false
+			}
+			out = append(out, e.strBytes(st, x)...)
+		case SliceVal:
+			if verb != 's' || x.esz != 1 {
+				return nil, false
+			}
+			if _, isBytes := iv.typ.(*types.Slice); !isBytes {
+				return nil, false
+			}
+			out = append(out, e.sliceSlots(st, x)...)
+		default:
+			return nil, false
+		}
+	}
+	if ai != len(args) {
+		return nil, false
+	}
+	return out, true
 }
